@@ -575,7 +575,8 @@ func (this *EXECodec) forwardARM(src, dst []byte, codeStart, codeEnd int) (uint,
 			val = (instr & ^_EXE_ARM_CB_ADDR_MASK) | ((addr >> 2) << _EXE_ARM_CB_REG_BITS)
 		}
 
-		if addr == 0 {
+		if addr == 0 || (isBL == true && (addr>>2)&_EXE_ARM_B_ADDR_MASK == 0) {
+			// The address field is 0 also for a target that is a multiple of 1<<28
 			binary.LittleEndian.PutUint32(dst[dstIdx:], uint32(val)) // 0 address as escape
 			copy(dst[dstIdx+4:], src[srcIdx:srcIdx+4])
 			srcIdx += 4
